@@ -2,7 +2,7 @@ package main
 
 func init() {
 	register(&propInfo{
-		ID: "C01",
+		ID:          "C01",
 		Explanation: "Decides necessary structural conditions of the round trip, not the round trip itself: (T.reg) every RegisterCodec row attaches a codec to a Go type whose size and identity equal the memory type the codec's methods reinterpret ptr as; (T.mem) Omit/Read/Size/Append of each codec agree on that memory type; (T.kind) each reflect.Kind clause of CodecForTypeRegistry maps named types to the basic type of the same kind and every registered basic kind has a clause; (T.omit0) every Omit is a disjunction of zero tests so omission can only drop a zero value; (T.slicewrap) the slice wrapper is chosen by element wire type as documented.",
 		NotDecided:  "Equality of decoded and original values for all types and values (runtime values; no sound static bound in reach); pointer/slice/map composition; boundary values.",
 		Assumptions: []string{"A1", "A5"},
